@@ -55,17 +55,20 @@ def ownersAt (cs : List PClient) (ls : Leases) (cid a : Bytes) : List PClient :=
 
 /-- Clients identified only through a zoned address.  The request's REAL peer
 address `a%z` equals the client's identifier; nothing is demanded when the peer
-has no zone or when the address is also configured under another zone (the
-documented indeterminate case of `FindLoose`). -/
-def zonedOwners (cs : List PClient) (a z : Bytes) : List PClient :=
+has no zone, when the address is also configured under another zone (the
+documented indeterminate case of `FindLoose`), or when a DHCP lease ties the
+address to a MAC. -/
+def zonedOwners (cs : List PClient) (ls : Leases) (a z : Bytes) : List PClient :=
   let holders := cs.filter (fun c => c.zips.any (·.1 == a))
-  if z != [] && holders.all (fun c => c.zips.contains (a, z)) then holders else []
+  -- a DHCP lease for the address names another device (its MAC): ambiguous too
+  if z != [] && (macByIP ls a).isNone && holders.all (fun c => c.zips.contains (a, z)) then holders
+  else []
 
 /-- The clients a request with ClientID `cid` from `a%z` is from: the strongest
 level of `ownersAt`; a zoned address identifies when nothing else does. -/
 def ownersZ (cs : List PClient) (ls : Leases) (cid a z : Bytes) : List PClient :=
   let o := ownersAt cs ls cid a
-  if !o.isEmpty then o else zonedOwners cs a z
+  if !o.isEmpty then o else zonedOwners cs ls a z
 
 def fromIgnoredLog (c : Conf) (cid a : Bytes) (z : Bytes := []) : Bool :=
   let o := ownersZ c.clients c.leases cid a z
@@ -145,6 +148,22 @@ def specFound (c : Conf) (sh : Shadow) (r : Entry) : Option String :=
   else if cands.all (fun e => fromIgnoredLog c e.cid e.ip) then some "search-ignored-client"
   else none
 
+/-- A field of `client_info` that is an address and is not masked. -/
+def infoUnmasked : Option Info → Bool
+  | some i => (match i.rule with | .ip a => !masked a | _ => false)
+  | none => false
+
+/-- Log-API clause for one returned record, all fields: the record clause above;
+with anonymisation on, no address-valued field of `client_info` is unmasked and
+the raw JSON mentions no un-anonymised peer address (catch-all). -/
+def specReported (c : Conf) (sh : Shadow) (r : Reported) : Option String :=
+  match specFound c sh r.entry with
+  | some w => some w
+  | none =>
+    if c.anon && r.leak then some "report-leaks-raw-address"
+    else if c.anon && infoUnmasked r.info then some "report-unmasked-field"
+    else none
+
 def firstSome {α : Type} (f : α → Option String) : List α → Option String
   | [] => none
   | x :: rest => match f x with
@@ -172,7 +191,7 @@ def specStep (c : Conf) (sh : Shadow) (op : Op) (out : Out) : Option String :=
   match op, out with
   | .query q, .stores mem sc sd => specQuery c sh q mem sc sd
   | .flush, .flushed mem file => specFlush sh mem file
-  | .search, .found rs => firstSome (specFound c sh) rs
+  | .search, .found rs => firstSome (specReported c sh) rs
   | .stats, .report sc sd => specReport sh sc sd
   | .tick, .ticked kc kd sc sd => specDisk sh kc kd sc sd
   | .restart, .restarted mem file kc kd sc sd =>
@@ -215,6 +234,7 @@ def RecordedBy (s : State) (q : Query) (e : Entry) : Prop :=
 /-- A query as the server can receive it: `netip.Addr.AsSlice` has 4 or 16 bytes. -/
 def Op.valid : Op → Bool
   | .query q => q.addr.length == 4 || q.addr.length == 16
+  | .edit _ (.zip _ _) => false
   | _ => true
 
 end AGH.C08
